@@ -91,3 +91,7 @@ mod test {
         assert_eq!(cm.estimate(hash), 2);
     }
 }
+
+#[cfg(feature = "verif-hooks")]
+#[path = "/verif/kani/hooks_sketch_core.rs"]
+mod verif_hooks;
